@@ -195,6 +195,77 @@ theorem verifyM_safe (P : VerifyParts) (keep : List (Bytes × Bytes))
     obtain ⟨key, rawsig, ⟨raw, code, hd, _⟩, _, _⟩ := verify_key_authority P keep [] s m h
     exact h0 _ hd
 
+/-- NO KEY STATE BESIDES THE KEEP: the outcome of `verify` is a function of what the CURRENT keep holds for that signer id (and of the
+arguments) — not of any earlier call.  In the model this is by construction (`verifyM` has no other state; `runKeyed` threads only the keep);
+the correspondence runs histories in which the keep is changed between service passes against the real code. -/
+theorem verify_depends_only_on_current_keep (P : VerifyParts) (keep1 keep2 : List (Bytes × Bytes)) (vid sig ser : Bytes)
+    (h : keep1.lookup vid = keep2.lookup vid) : verifyM P keep1 vid sig ser = verifyM P keep2 vid sig ser := by
+  simp only [verifyM, keyFor, h]
+
+/-- `.keep[vid] = …` / `del .keep[vid]`: afterwards the keep holds exactly that for the id, and what it holds for other ids is untouched -/
+theorem setKeep_lookup (keep : List (Bytes × Bytes)) (vid : Bytes) (q : Option Bytes) :
+    (setKeep keep vid q).lookup vid = q ∧ ∀ v, v ≠ vid → (setKeep keep vid q).lookup v = keep.lookup v := by
+  have hfil : ∀ (l : List (Bytes × Bytes)), (l.filter (fun x => x.1 != vid)).lookup vid = none := by
+    intro l
+    induction l with
+    | nil => rfl
+    | cons a l ih =>
+      by_cases ha : a.1 = vid
+      · simp [List.filter, ha, ih]
+      · have : (a.1 != vid) = true := by simpa using ha
+        have hne : (vid == a.1) = false := by simpa using fun h => ha h.symm
+        simp only [List.filter, this, List.lookup, hne]
+        exact ih
+  have hoth : ∀ (l : List (Bytes × Bytes)) v, v ≠ vid → (l.filter (fun x => x.1 != vid)).lookup v = l.lookup v := by
+    intro l v hv
+    induction l with
+    | nil => rfl
+    | cons a l ih =>
+      by_cases ha : a.1 = vid
+      · have hva : (v == vid) = false := by simpa using hv
+        simp [List.filter, ha, List.lookup, hva, ih]
+      · have : (a.1 != vid) = true := by simpa using ha
+        simp only [List.filter, this, List.lookup]
+        split
+        · rfl
+        · exact ih
+  cases q with
+  | none => exact ⟨by simp [setKeep, hfil], fun v hv => by simp [setKeep, hoth _ v hv]⟩
+  | some qv =>
+    refine ⟨by simp [setKeep, List.lookup], fun v hv => ?_⟩
+    have hvv : (v == vid) = false := by simpa using hv
+    simp [setKeep, List.lookup, hvv, hoth _ v hv]
+
+/-- key ROTATION: once the keep holds `q2` for a transferable id, `verify` accepts for that id exactly under the key decoded from `q2` —
+whatever the receiver verified for that id before (memos signed with the new key are accepted, those signed with the retired key refused) -/
+theorem verify_after_rotation (P : VerifyParts) (keep : List (Bytes × Bytes)) (vid q2 sig ser raw : Bytes) (code : Nat)
+    (hd : P.decVID vid = .ok (raw, code)) (hc : code ≠ 66) (h : verifyM P (setKeep keep vid (some q2)) vid sig ser = .ok ()) :
+    ∃ key rawsig, P.decQVK q2 = .ok key ∧ P.decSGN sig = .ok rawsig ∧ P.check key rawsig ser = true := by
+  obtain ⟨key, rawsig, ⟨raw', code', hd', hor⟩, hs, hchk⟩ := verify_key_authority P _ vid sig ser h
+  rw [hd] at hd'; cases hd'
+  rcases hor with ⟨hb, _⟩ | ⟨_, qvk, hq, hk⟩
+  · exact absurd hb hc
+  · rw [(setKeep_lookup keep vid (some q2)).1] at hq
+    cases hq
+    exact ⟨key, rawsig, hk, hs, hchk⟩
+
+/-- a receive history with key management in between (`runKeyed`: batches and keep updates in any order) never raises -/
+theorem keyed_history_total (authic : Bool) (P : VerifyParts)
+    (h1 : ∀ v e, P.decVID v = .error e → rxCatches e = true) (h2 : ∀ q e, P.decQVK q = .error e → rxCatches e = true)
+    (h3 : ∀ s e, P.decSGN s = .error e → rxCatches e = true) (h0 : ∀ r, P.decVID [] ≠ .ok r)
+    (steps : List RStep) (keep : List (Bytes × Bytes)) (es : List Entry) (q : List (Bytes × Nat)) :
+    ∃ r, runKeyed authic P steps keep es q = .ok r := by
+  induction steps generalizing keep es q with
+  | nil => exact ⟨_, rfl⟩
+  | cons st rest ih =>
+    cases st with
+    | rekey vid qvk => simp only [runKeyed]; exact ih _ _ _
+    | batch b =>
+      simp only [runKeyed]
+      obtain ⟨o, ho⟩ := serviceAllRx_total authic (verifyM P keep) (verifyM_safe P keep h1 h2 h3 h0).1 es (q ++ b)
+      obtain ⟨r, hr⟩ := ih keep o.entries o.queue
+      simp [ho, hr]
+
 /-- C22.3 with the key spelled out: with signed grams required, from the empty state, after ANY history of service calls over ANY datagrams,
 every delivered memo carries a signer id, and its text is a concatenation of bodies each lying in a signed part whose signature passed the
 ed25519 check under the key the RECEIVER holds for that id (`KeyFor`: embedded key only for non-transferable ids) -/
